@@ -27,7 +27,7 @@ Your task: produce TWO independent, realistic changes to openconfig/ygot (non-te
   (c) breaks the property above — but only for something specific: a particular unusual input, a multi-step sequence of operations, a particular interleaving, or two cooperating sites that each look fine alone. Do NOT produce changes that ordinary use would expose at once, and do not simply delete an obviously essential statement. Think of the kind of plausible "simplification", "optimisation" or refactoring slip a maintainer could merge. Prefer changes in different functions/mechanisms for the two seeds.
 For each change also write a demonstration: a Go test file (self-contained, package and destination path of your choice inside the worktree, e.g. ytypes/zz_seed_demo_test.go) that PASSES on the unmodified tree and FAILS with your change applied.
 
-Environment: no network. Always run go with `GOFLAGS=-mod=mod GOPROXY=off` exported. The compiled generated packages integration_tests/schemaops/ctestschema and utestschema are available for use in demos.
+Environment: no network. Do NOT use `git stash` (the stash is shared between worktrees and other people are working in sibling worktrees): use `git diff > file`, `git apply`, `git apply -R` and `git checkout -- .` instead. When running `go test ./...` exclude the SEED/ directory. Always run go with `GOFLAGS=-mod=mod GOPROXY=off` exported. The compiled generated packages integration_tests/schemaops/ctestschema and utestschema are available for use in demos.
 
 Deliverables, for seed numbers {k1} and {k2}: create directories {wt}/SEED/{k1} and {wt}/SEED/{k2}, each containing
   - patch.diff  : `git diff` of the source change only (must apply with `git apply` on a clean worktree; do not include the demo test or SEED/ in it),
